@@ -2,11 +2,15 @@
 
 use crate::ctx::Ctx;
 
+pub mod c15;
+pub mod c16;
 pub mod c17;
 pub mod util;
 
 pub fn run(c: &mut Ctx) -> bool {
     match c.prop.as_str() {
+        "C15" => c15::run(c),
+        "C16" => c16::run(c),
         "C17" => c17::run(c),
         "selfcheck" => selfcheck(c),
         _ => return false,
